@@ -821,6 +821,10 @@ def check_precedence(ix, rep, grammars, rule='R-GRAM'):
             continue
         rep.ok(rule, m.rel, gname, 'precedence:order', 'binary alternatives in grammar order: %s' % ' > '.join(binary))
         prev = None
+        rassoc = {a.label for a in alts if a.right_assoc}
+        for lab_ in sorted(rassoc):
+            rep.fail(rule, 'rtamt/antlr/grammar/tl/%s.g4' % gname, gname, 'assoc:%s' % lab_, 'alternative %s is declared right-associative: chains of that operator no longer group '
+                     'left to right like every other binary operator (and like the other front end)' % lab_)
         for c, p, r in table:
             n += 1
             lab = c[:-len('Context')]
